@@ -311,6 +311,9 @@ def resolve_local(fn: ast.AST, expr: ast.AST, depth: int = 3) -> ast.AST:
         if isinstance(n, ast.Name) and isinstance(n.ctx, (ast.Store, ast.Del)):
             stores.setdefault(n.id, []).append(n)
     defs: Dict[str, ast.AST] = {}
+    if isinstance(fn, (ast.FunctionDef, ast.AsyncFunctionDef)):
+        for a in fn.args.posonlyargs + fn.args.args + fn.args.kwonlyargs + [x for x in (fn.args.vararg, fn.args.kwarg) if x is not None]:
+            stores.setdefault(a.arg, []).append(a)  # a parameter is a binding too
     for a in ast.walk(fn):
         if isinstance(a, ast.Assign) and len(a.targets) == 1 and isinstance(a.targets[0], ast.Name) and len(stores.get(a.targets[0].id, [])) == 1:
             defs[a.targets[0].id] = a.value
